@@ -17,6 +17,10 @@ TOL = timedelta(milliseconds=1)
 EPS = F(1, 10 ** 9)
 
 
+# how the caller hands over `resources=` (the code takes any iterable of resources and reads it once)
+RES_FORMS = ['list', 'list', 'list', 'tuple', 'generator', 'iterator', 'dict-values']
+
+
 # ------------------------------------------------------------------------------ strategies
 
 @st.composite
@@ -60,10 +64,13 @@ def fwd_case(draw, max_tasks=8, fixed=True, late_clock=True, balance=None, taskd
         for k in range(draw(st.integers(1, 2))):
             e0 = P + timedelta(days=draw(st.integers(-20, 6)), hours=draw(st.sampled_from([0, 0, 15])))
             ext.append(dict(id=draw(st.sampled_from([100 + k, draw(st.sampled_from(m.order))])), start=iso(e0 - timedelta(days=2)), end=iso(e0),
-                            succ=[draw(st.sampled_from(m.order))]))
+                            succ=[draw(st.sampled_from(m.order))], in_wbs=draw(st.booleans())))
         spec['ext'] = ext
+    if draw(st.integers(0, 5)) == 0:
+        spec['subclass'] = True
     return dict(dir='fwd', spec=spec, res=rs, P=iso(P), N=iso(N), start_default=sd, balance=draw(st.booleans()) if balance is None else balance,
-                dflt=draw(st.sampled_from([0, 0, 4])), reuse=draw(st.integers(0, 2)) == 0, wrap=draw(st.sampled_from([0, 0, 0, 1, 2 if taskdep else 1])))
+                dflt=draw(st.sampled_from([0, 0, 4])), reuse=draw(st.integers(0, 2)) == 0, wrap=draw(st.sampled_from([0, 0, 0, 1, 2 if taskdep else 1])),
+                res_form=draw(st.sampled_from(RES_FORMS)), balance_int=draw(st.integers(0, 3)) == 0)
 
 
 @st.composite
@@ -80,8 +87,11 @@ def bwd_case(draw, max_tasks=8, balance=None, taskdep=False, **kw):
             t['start'] = iso(e - timedelta(days=draw(st.integers(0, 20)))) if draw(st.booleans()) else None
     E = BASE + timedelta(days=draw(st.integers(30, 40)), hours=draw(st.sampled_from([0, 0, 0, 10, 23])),
                          minutes=draw(st.sampled_from([0, 0, 30])))
+    if draw(st.integers(0, 5)) == 0:
+        spec['subclass'] = True
     return dict(dir='bwd', spec=spec, res=rs, P=iso(E), N=iso(datetime(2020, 1, 1)), balance=draw(st.booleans()) if balance is None else balance,
-                dflt=draw(st.sampled_from([0, 0, 4])), reuse=draw(st.integers(0, 2)) == 0, wrap=draw(st.sampled_from([0, 0, 0, 1, 2 if taskdep else 1])))
+                dflt=draw(st.sampled_from([0, 0, 4])), reuse=draw(st.integers(0, 2)) == 0, wrap=draw(st.sampled_from([0, 0, 0, 1, 2 if taskdep else 1])),
+                res_form=draw(st.sampled_from(RES_FORMS)), balance_int=draw(st.integers(0, 3)) == 0)
 
 
 def any_case(max_tasks=8, **kw):
@@ -98,11 +108,17 @@ class Out:
 def make_scheduler(case, resources):
     env.set_clock(dt(case['N']))
     from pjplan import ForwardScheduler, BackwardScheduler
+    form = case.get('res_form') or 'list'
+    if resources is not None and form != 'list':
+        resources = tuple(resources) if form == 'tuple' else (r for r in list(resources)) if form == 'generator' else \
+            iter(list(resources)) if form == 'iterator' else {k: r for k, r in enumerate(resources)}.values()
+    # the flag is a truth value: 0 / 1 are as good as False / True
+    bal = int(case['balance']) if case.get('balance_int') else case['balance']
     if case['dir'] == 'fwd':
         # start_default: the scheduler is built without a start and takes the clock (P == N in such cases)
-        return ForwardScheduler(start=None if case.get('start_default') else dt(case['P']), resources=resources, balance_resources=case['balance'],
+        return ForwardScheduler(start=None if case.get('start_default') else dt(case['P']), resources=resources, balance_resources=bal,
                                 default_estimate=case['dflt'])
-    return BackwardScheduler(end=dt(case['P']), resources=resources, balance_resources=case['balance'],
+    return BackwardScheduler(end=dt(case['P']), resources=resources, balance_resources=bal,
                              default_estimate=case['dflt'])
 
 
@@ -173,6 +189,42 @@ def warm_up(case, o, handles):
         pass
     for dc, orig in saved:
         dc.set_units(dict(orig))
+    failed_run(case, o)
+
+
+def failed_run(case, o):
+    """the scheduler object has also been through a calc() that failed in the middle of its pass (after some leaves were
+    placed): (a) a plan whose dependencies close a circle through the hierarchy, (b) a user-defined resource that raises"""
+    from pjplan import Task, WBS
+    names = [t['resource'] for t in case['spec']['tasks']][:3] or [None]
+    w3 = WBS()
+    for k, rn in enumerate(names):
+        w3.roots.append(Task(900 + k, 'busy', resource=rn, estimate=11 + k))
+    s1, s2 = Task(910, 's1'), Task(911, 's2')
+    a, b = Task(912, 'a', resource=names[0], estimate=3), Task(913, 'b', resource=names[0], estimate=3)
+    w3.roots.append(s1); w3.roots.append(s2)
+    s1.children.append(a); s2.children.append(b)
+    if case['dir'] == 'fwd':
+        s2.predecessors.append(s1); a.predecessors.append(b)
+    else:
+        s1.successors.append(s2); b.successors.append(a)
+    try:
+        o.sched.calc(w3)
+    except Exception:
+        pass
+    crews = [r for r in o.resources_in if hasattr(r, 'boom')]
+    if crews:
+        w4 = WBS()
+        for k, rn in enumerate(names):
+            w4.roots.append(Task(920 + k, 'busy', resource=rn, estimate=13 + k))
+        for r in crews:
+            r.boom = 7
+        try:
+            o.sched.calc(w4)
+        except Exception:
+            pass
+        for r in crews:
+            r.boom = None
 
 
 def extract(o):
